@@ -94,4 +94,18 @@ def checkWalk (deps : Task → List Task) (res : Task → Bool) (n : Nat) : Nat 
       else if res k then checkWalk deps res n k (recDepsF deps n k ++ skip)
       else false
 
+/-! ### `jug status --short` -/
+
+/-- the one-line summary of `_print_status` -/
+inductive ShortMsg
+  | allComplete (n : Nat)                                              -- "All tasks complete (n tasks)."
+  | pending (toRun failed complete : Nat) (active : Option Nat)        -- "... waiting to be run, ... failed, ... complete, (none active | k active)."
+deriving DecidableEq, Repr
+
+/-- from the five totals (failed, waiting, ready, complete, active) -/
+def shortSummary (f w r c a : Nat) : ShortMsg :=
+  if w = 0 ∧ a = 0 ∧ f = 0 ∧ r = 0 then .allComplete c
+  else if a = 0 then .pending (w + r) f c none
+  else .pending (w + r) f c (some a)
+
 end Jug.Graph
